@@ -334,6 +334,11 @@ func (la *lockAnalyzer) analyze(name string, body *ast.BlockStmt, deferredLit, g
 			case *ast.DeferStmt:
 				for _, ev := range la.netReleases(s) {
 					if _, ok := st.pending[ev.lock]; ok {
+						if final && !st.held[ev.lock] {
+							// acquired on some paths to this defer only: on the others the deferred release gives
+							// back something that was never taken
+							res.Findings = append(res.Findings, LockFinding{Kind: "deferred-release-not-held", Lock: ev.lock, Acq: s.Pos()})
+						}
 						delete(st.pending, ev.lock) // obligation discharged: released at every exit from here
 					} else {
 						st.deferredRel[ev.lock] = true
@@ -569,6 +574,9 @@ func (c *Ctx) LockPairing(rule, rel string, tokens []string) map[string][]*LockA
 			for _, f := range a.Findings {
 				if f.Kind == "unpaired-release" && !wl[f.Lock] {
 					c.Bad(rule, a.Name+" › release "+f.Lock, f.Acq, "release of a lock that is not held on any path reaching this point")
+				}
+				if f.Kind == "deferred-release-not-held" && !wl[f.Lock] {
+					c.Bad(rule, a.Name+" › deferred release "+f.Lock, f.Acq, "a release is deferred at a point that is reached both with and without the lock held: on the paths that never acquired it, the exit releases (takes back) a token that belongs to another holder")
 				}
 			}
 		}
